@@ -354,8 +354,20 @@ def c16_cases(ctx):
         ops2 = ["in %s" % hx(comp), "ziinit 15"]
         ctx.add("run_d%d" % i, ops + ["drive @ flat %d 0 5 %d:%d" % (len(data) + 3, step, rng.choice([-1, 1, 3, 1000]))],
                 kind="drun", data=data)
-        ops2.append("zdrive @ %s" % ",".join("%d:%d" % (step, rng.choice([1, 9, 100000])) for _ in range(rng.range(1, 4))))
+        # (every second case ends with Finish calls into small buffers: recoverable buffer errors in between)
+        items = ["%d:%d:0" % (step, rng.choice([1, 9, 100000])) for _ in range(rng.range(1, 4))]
+        if i % 2 == 1:
+            items.append("100000:%d:4" % rng.choice([1, 9, 300, 32768]))
+        ops2.append("zdrive @ %s" % ",".join(items))
         ctx.add("run_z%d" % i, ops2, kind="zrun", data=data, comp=comp)
+        # the C deflate stream's adler field, zlib and raw (negative window bits; the checksum is still requested): every
+        # call gets ample output, so it consumes exactly what it is offered
+        cutsz = sorted(set([0, ln] + [rng.range(0, ln) for _ in range(rng.range(1, 4))]))
+        opsz = ["in %s" % hx(data), "zdinit %d 8 %d 9 %d" % (rng.range(0, 9), rng.choice([15, -15]), rng.range(0, 4))]
+        for a, b in zip(cutsz, cutsz[1:]):
+            opsz.append("zcall deflate @%d:%d %d %d" % (a, b - a, 2 * ln + 1000, rng.choice([0, 0, 2, 3])))
+        opsz.append("zcall deflate - %d 4" % (2 * ln + 1000))
+        ctx.add("run_y%d" % i, opsz, kind="zcrun", data=data)
 
 
 def c16_eval(ctx):
@@ -394,6 +406,19 @@ def c16_eval(ctx):
             idx.append((3, 2))
             oq.append((cid, q))
             m["idx"] = idx
+        elif m["kind"] == "zcrun":
+            q = ["in %s" % hx(m["data"])]
+            m["ypairs"] = []
+            tin = 0
+            for k in range(3, len(ops) + 1):
+                f = parse_fields(ctx.impl.get((cid, k), ("", ""))[1])
+                if "dti" not in f:
+                    continue
+                tin += int(f["dti"])
+                q.append("adler 1 @0:%d" % tin)
+                m["ypairs"].append((k, len(q), f.get("adler")))
+            oq.append((cid, q))
+            m["idx"] = [(3, 2)]
         elif m["kind"] in ("drun", "zrun"):
             q = ["in %s" % hx(m["data"])]
             idx = []
@@ -435,6 +460,21 @@ def c16_eval(ctx):
             for k, qi in m["idx"]:
                 f = parse_fields(res.get((cid, k), ("", ""))[1])
                 exp = orc.get((cid, qi), ("", "?"))[1]
+                if m["kind"] == "zcrun":
+                    for tg2, rs2 in (("debug", ctx.impl), ("release", ctx.impl_rel)):
+                        if rs2 is not res:
+                            continue
+                    badp = None
+                    for (kk, qj, _) in m["ypairs"]:
+                        ad = parse_fields(res.get((cid, kk), ("", ""))[1]).get("adler")
+                        e = orc.get((cid, qj), ("", "?"))[1]
+                        if ad != e:
+                            badp = (kk, ad, e)
+                            break
+                    if badp:
+                        fails.append((cid, "%s build: mz_stream.adler after deflate call op#%d is %s, the Adler-32 of the input consumed so far "
+                                           "is %s" % (tag, badp[0], badp[1], badp[2])))
+                    break
                 if m["kind"] == "crun":
                     badp = None
                     for (j, qj, ad) in m["cpairs"]:
